@@ -18,6 +18,8 @@ import (
 type absMS struct {
 	spent   map[types.Hash256]bool
 	created map[types.Hash256]bool
+	base    uint64 // nonce of the block the mid-state builds on
+	hasBase bool
 }
 
 type absPoolT struct {
@@ -26,12 +28,17 @@ type absPoolT struct {
 	elemBad [32]bool // proofs invalid against the claimed basis, by tag
 	// call logs
 	updated []string
+	// outputs spent / created on chain, per block nonce (filled in when the
+	// harness builds a block that carries transactions)
+	spentBy   map[uint64]map[types.Hash256]bool
+	createdBy map[uint64]map[types.Hash256]bool
+	parentOf  map[uint64]uint64
 }
 
 var absP *absPoolT
 
 func newAbsPool() {
-	absP = &absPoolT{ms: map[*consensus.MidState]*absMS{}}
+	absP = &absPoolT{ms: map[*consensus.MidState]*absMS{}, spentBy: map[uint64]map[types.Hash256]bool{}, createdBy: map[uint64]map[types.Hash256]bool{}}
 }
 
 func (p *absPoolT) shadow(ms *consensus.MidState) *absMS {
@@ -57,6 +64,25 @@ func v1tag(txn types.Transaction) byte {
 	return txn.ArbitraryData[0][0]
 }
 
+//verif:replace go.sia.tech/core/consensus.NewMidState
+func stubNewMidState(s consensus.State) *consensus.MidState {
+	ms := consensus.NewMidState(s) // the real constructor (the stub is on the stack)
+	sh := absP.shadow(ms)
+	sh.base, sh.hasBase = absNonce(s.Index.ID), true
+	return ms
+}
+
+// onChain reports whether the chain ending at block k spent / created id.
+func (p *absPoolT) onChain(k uint64, tab map[uint64]map[types.Hash256]bool, id types.Hash256) bool {
+	for n := 0; k != 0 && n < absMaxBlocks; n++ {
+		if tab[k][id] {
+			return true
+		}
+		k = p.parentOf[k]
+	}
+	return false
+}
+
 //verif:replace go.sia.tech/core/consensus.ValidateV2Transaction
 func stubValidateV2Transaction(ms *consensus.MidState, txn types.V2Transaction) error {
 	s := absP.shadow(ms)
@@ -67,6 +93,9 @@ func stubValidateV2Transaction(ms *consensus.MidState, txn types.V2Transaction) 
 		id := types.Hash256(sci.Parent.ID)
 		if s.spent[id] {
 			return errors.New("abstract: siacoin input double-spends parent output")
+		}
+		if s.hasBase && absP.onChain(s.base, absP.spentBy, id) {
+			return errors.New("abstract: siacoin input spends an output already spent on chain")
 		}
 		if sci.Parent.StateElement.LeafIndex == types.UnassignedLeafIndex && !s.created[id] {
 			return errors.New("abstract: siacoin input spends nonexistent ephemeral output")
